@@ -312,6 +312,9 @@ void Search::iter_search()
             ASSERT(min_bound < max_bound);
             LOG_DEBUG("Search depth=%d bound=[%ld, %ld] delta=%ld\n",
                       _current_depth, min_bound, max_bound, delta);
+#ifdef CHESSPP_VERIF
+            verif::at(verif::ASPIRATION_ROUND, this);
+#endif
             result = search(_position, _current_depth, min_bound, max_bound,
                             info + 1);
 
